@@ -6,6 +6,9 @@ CONSTANTS
   MaxNodes = 4
   MaxList = 2
   Impl = "required"
+  Group = "normal"
+  ForceOn = FALSE
+  RestartOn = FALSE
   MaxOps = 0
 VIEW ViewNoHist
 SYMMETRY Sym
